@@ -45,7 +45,7 @@ MANIFEST = {
     "note": "Thread SETTINGS x histories are enumerated; the interleaving of numba's / FFTW's internal worker threads inside one kernel launch cannot be controlled from Python (the kernel has no reductions). State deduplication is validated in the thorough tier by re-running one full depth without deduplication and comparing the verdicts. FFTW plan-cache expiry (30 s keep-alive) is outside the horizon of a history (< 5 s).",
 }
 
-SOLVES = ["A", "A2", "B", "C", "D", "E", "G", "H", "J"]
+SOLVES = ["A", "A2", "B", "C", "D", "E", "G", "H", "J", "K"]  # K: reference only (threads-first histories), not in the BFS alphabet
 OPS = ["A", "A2", "B", "C", "D", "E", "G", "H", "J", "T1", "T2", "T4", "T8", "R", "F"]
 
 
@@ -117,6 +117,9 @@ def solve_args(name):
         z, prof = sl.build_profiles("most_aniso", 4)
         # two unsorted levels: the padded spectrum (2, 6, 10) has the shape of A's, so footprint (forward FFT) and dispersion (inverse FFT) meet on one shape
         return dict(srf_flx=qB, z=z, profiles=prof, domain=(80.0, 90.0), levels=[4, 1], modes=(8, 6), halo=13.0, meas_pt=_tower_row(30.0, 45.0), footprint=True, precision="double")
+    if name == "K":  # dispersion with the TOP node of the column requested first, then lower nodes (unsorted), background
+        z, prof = sl.build_profiles("most_u", 4)
+        return dict(srf_flx=qA + 0.5, z=z, profiles=prof, domain=(80.0, 90.0), levels=[len(z) - 1, 2, 0, 4], modes=(8, 6), halo=13.0, precision="double", srf_bg_conc=1.25)
     if name == "G":  # same mode count, domain and halo as E on ANOTHER grid (10x8): collides with E on anything keyed without the grid
         z, prof = sl.build_profiles("most_aniso", 4)
         return dict(srf_flx=np.zeros((8, 10)), z=z, profiles=prof, domain=(80.0, 90.0), levels=[4, 1], modes=(8, 6), halo=13.0, meas_pt=(30.0, 45.0), footprint=True, precision="double")
@@ -550,7 +553,7 @@ def run(ctx):
     hist_count += len(envh)
     shared_nc = os.path.join(ctx.tmp_root, "numba_cache_threads_first")
     os.makedirs(shared_nc, exist_ok=True)
-    thh = [{"history": [s_, s_], "wisdom": False, "refdir": refdir, "threads_first": k_, "numba_cache_dir": shared_nc} for k_ in (2, 3, 8) for s_ in ("A", "B", "C", "E")]
+    thh = [{"history": [s_, s_], "wisdom": False, "refdir": refdir, "threads_first": k_, "numba_cache_dir": shared_nc} for k_ in (2, 3, 8) for s_ in ("A", "B", "C", "E", "K")]
     core.run_forked(ctx, case_history, thh[:1], sub="numerical threads > 1 from the first call on (threaded kernels really compiled)", timeout=1800)
     core.run_forked(ctx, case_history, thh[1:], sub="numerical threads > 1 from the first call on (threaded kernels really compiled)", timeout=1800)
     hist_count += len(thh)
